@@ -180,6 +180,18 @@ check("C07", "exploration",
       "Trusted: quadrature rule (C12), basis evaluation (C09); the potentials themselves are validated by C08.",
       "exhaustive sweep (grid pair x operator x space pair x order) against Galerkin-tested potentials")
 
+check("C03", "model_checking",
+      "(a),(b) exhaustive sweep mesh x every operator family/space combination x rigid motions x scalings (with k/s) against the "
+      "homogeneity table; (c) explicit-state BFS over the labelling Cayley graph {swap elements, rotate the local vertex order of one "
+      "element by 1 or 2, reverse one element and flag it in swapped_normals, transpose vertex labels} to depth 2 (thorough 3) from two "
+      "initial labellings on edge2/bow2 and coarse generators on larger meshes; in every state every operator is assembled and compared "
+      "with D P A P' D, where P and D are derived by matching the represented basis functions geometrically. Regular parts to rounding, "
+      "singular parts quadrature-class at two singular orders. All 18 edge and 9 vertex remap classes are asserted covered.",
+      "DESIGN.md 4/C03",
+      "Trusted: geometric matching of basis functions (evaluated through the public path); symmetric point set of the order-4 triangle rule; "
+      "the pure-Python Duffy rule generator is memoised during the run (copied on use).",
+      "explicit-state search over the labelling group + exhaustive sweep over motions/scalings, invariant = equivariance")
+
 ALL = ["C%02d" % i for i in range(1, 21)]
 
 
